@@ -3,8 +3,8 @@ C14 — concurrent JIT requests on a shared cache.
 
 Theorems about EVERY state reachable in the transition system `FfcxModel/Jit/Cache.lean`
 (`Reach`: any number of requests, any interleaving of their file-system steps, any fail/kill choice
-at every step - including a failing `fd.write`/`fd.close` of the ready marker; `ReachW`: the same
-except that the marker write never fails; `ReachNF`: no failures at all).  The model is tied to
+at every step — code generation, the four phases of the C build, creating / writing / publishing
+the ready marker; `ReachNF`: the same without failures).  The model is tied to
 `ffcx/codegeneration/jit.py` by the forced-schedule correspondence of `harness/props/c14.py`.
 Trusted: atomicity of `open(...,'x')`, `os.replace`, `os.path.exists`; the import machinery.
 
@@ -12,10 +12,10 @@ Trusted: atomicity of `open(...,'x')`, `os.replace`, `os.path.exists`; the impor
 `_compile_objects`, `_load_objects`, the same `except` block): one request of the model is one call
 of either; every theorem below is about both, and the scheduler drives both.
 
-The code as it is leaves the ready marker behind when `fd.write(s)`/`fd.close()` raises after
-`open(ready_name,'x')` succeeded, while the `except` block renames the lock: `marker_implies_complete`,
-`load_only_complete` and `reuse` are FALSE for the full fault domain (`..._counterexample`) and are
-proved for runs with a fault-free marker write (`..._partial`).
+Since /repo commit 101bdbe the ready marker is completed under a temporary name and moved into place
+with one `os.replace`: it never exists without being complete and nobody removes it, so all theorems
+hold for the full fault domain (before that commit a failing `fd.write` on the marker left a stale
+marker behind: `marker_implies_complete`, `load_only_complete` and `reuse` were false then).
 -/
 import FfcxProofs.Lemmas.Cache
 
@@ -40,57 +40,37 @@ example : (run (init 3 2) [(0, .none), (1, .none), (2, .none)]).procs.countP (fu
     (run (init 3 2) [(0, .none), (1, .none), (2, .none)]).procs.map (·.pc) = [.bGen, .wPoll 0, .wPoll 0] := by
   decide
 
-/- Full statement (FALSE for the code as it is, see the counterexample):
-   theorem marker_implies_complete {s : Sys} (h : Reach s) (hm : s.fs.marker = true) :
-       s.fs.so = .complete ∧ s.fs.lock = .source ∧ s.fs.obj = true
-   Missing: the `except` path after a failing `fd.write`/`fd.close` does not remove the marker. -/
-
 /-- The ready marker certifies a complete build: `.c.cached` exists → the `.so` is completely
-written, `.c` holds the source and the object file exists - in every state reachable with any
-interleaving and any fail/kill choices other than a failing write/close of the marker itself. -/
-theorem marker_implies_complete_partial {s : Sys} (h : ReachW s) (hm : s.fs.marker = true) :
+written, `.c` holds the source and the object file exists — in every reachable state, whatever
+failed or was killed, including a failing write of the marker itself. -/
+theorem marker_implies_complete {s : Sys} (h : Reach s) (hm : s.fs.marker = true) :
     s.fs.so = .complete ∧ s.fs.lock = .source ∧ s.fs.obj = true :=
-  (invS_reachW h).ginv hm
+  (inv_reach h).ginv.1 hm
 
-/-- The code as it is: request 0 builds, `open(ready,'x')` succeeds, `fd.write` raises; the `finally`
-block restores the handlers and the `except` block renames the lock.  Reachable state: marker
-present, NO lock (so the next request becomes a builder).  Six steps of that next request later:
-marker present while the linker is rewriting the `.so`. -/
-theorem marker_implies_complete_counterexample :
-    Reach (run (init 3 2) staleMarker) ∧
-    (run (init 3 2) staleMarker).fs =
-      { lock := .absent, so := .complete, obj := true, marker := true, failed := true, gen := 1 } ∧
-    Reach (run (init 3 2) (staleMarker ++ List.replicate 6 (1, .none))) ∧
-    (run (init 3 2) (staleMarker ++ List.replicate 6 (1, .none))).fs =
-      { lock := .source, so := .part, obj := true, marker := true, failed := true, gen := 2 } := by
-  refine ⟨reach_run (Reach.init 3 2) _, by decide, reach_run (Reach.init 3 2) _, by decide⟩
-
-/-- non-vacuity: the marker is reachable (request 0 builds while request 1 polls) -/
-example : (run (init 2 3) ((1, .none) :: List.replicate 9 (0, .none))).fs.marker = false ∧
-    (run (init 2 3) ((0, .none) :: (1, .none) :: List.replicate 8 (0, .none))).fs.marker = true := by
+/-- non-vacuity: the marker is reachable (request 0 builds while request 1 polls); a failing write of
+the marker leaves neither marker nor temp file nor lock -/
+example : (run (init 2 3) ((1, .none) :: List.replicate 12 (0, .none))).fs.marker = false ∧
+    (run (init 2 3) ((0, .none) :: (1, .none) :: List.replicate 11 (0, .none))).fs.marker = true ∧
+    (run (init 2 3) failedMarkerWrite).fs = { so := .complete, obj := true, failed := true, gen := 1 } := by
   decide
-
-/- Full statement (FALSE for the code as it is, see the counterexample): the same with `Reach s`. -/
 
 /-- Nobody ever imports an incomplete module: whenever the next step of a request is the import
 (`module_from_spec`/`exec_module`, waiter or builder) the `.so` is complete; the observable of every
 load step says so; and every request that has returned imported a complete file, namely the `.so`
-generation now on disk (`tok = fs.gen`: all requests that have returned hold the same module) - in
-every state reachable with a fault-free marker write. -/
-theorem load_only_complete_partial {s : Sys} (h : ReachW s) :
+generation now on disk (`tok = fs.gen`: all requests that have returned hold the same module). -/
+theorem load_only_complete {s : Sys} (h : Reach s) :
     (∀ (pid : Nat) (p : Proc), s.procs[pid]? = some p → p.pc.isLoad = true → s.fs.so = .complete) ∧
     (∀ (pid : Nat) (c : Choice), (obs s pid c).op = .load → (obs s pid c).res = .so .complete) ∧
     (∀ (i : Nat) (p : Proc) (b : Bool) (so : So), s.procs[i]? = some p → p.pc = .done b so →
         so = .complete ∧ p.tok = s.fs.gen) := by
-  have hS := invS_reachW h
-  have hi := hS.inv
+  have hi := inv_reach h
   have h1 : ∀ (pid : Nat) (p : Proc), s.procs[pid]? = some p → p.pc.isLoad = true →
       s.fs.so = .complete := by
     intro pid p hp hl
-    have hloc := (hi.loc pid p hp).2
+    have hloc := (hi.loc pid p hp).2.2.2
     obtain ⟨pc, g, saved, polls, tok⟩ := p
     cases pc <;> simp_all [Pc.isLoad, LocPc]
-    all_goals exact (hS.ginv hloc.1).1
+    all_goals exact (hi.ginv.1 hloc.1).1
   refine ⟨h1, ?_, ?_⟩
   · intro pid c hop
     cases hp : s.procs[pid]? with
@@ -101,49 +81,41 @@ theorem load_only_complete_partial {s : Sys} (h : ReachW s) :
       have hl := stepProc_load _ _ _ _ hop
       rw [hl.2, h1 pid p hp hl.1]
   · intro i p b so hp hpc
-    have hst := (hS.strong i p hp).2
-    simp only [StrongPc, hpc] at hst
-    exact hst
+    have hloc := (hi.loc i p hp).2.2.2
+    simp only [LocPc, hpc] at hloc
+    exact ⟨hloc.1, hloc.2.1⟩
 
-/-- The code as it is: after the stale marker of `staleMarker` request 1 rebuilds; while its linker
-is writing, request 2 finds the lock taken, sees the stale marker at its first poll and imports the
-half-written `.so`. -/
-theorem load_only_complete_counterexample :
-    Reach (run (init 3 2) (staleMarker ++ List.replicate 6 (1, .none) ++ List.replicate 3 (2, .none))) ∧
-    (run (init 3 2) (staleMarker ++ List.replicate 6 (1, .none) ++ List.replicate 3 (2, .none))).procs.map (·.pc) =
-      [.raised (.build .markWrite), .bLink2, .wLoad] ∧
-    obs (run (init 3 2) (staleMarker ++ List.replicate 6 (1, .none) ++ List.replicate 3 (2, .none))) 2 .none =
-      ⟨.load, .so .part⟩ ∧
-    (run (init 3 2) (staleMarker ++ List.replicate 6 (1, .none) ++ List.replicate 4 (2, .none))).procs.map (·.pc) =
-      [.raised (.build .markWrite), .bLink2, .done false .part] := by
-  refine ⟨reach_run (Reach.init 3 2) _, by decide, by decide, by decide⟩
-
-/-- non-vacuity: a waiter about to import, and the builder about to import -/
+/-- non-vacuity: a waiter about to import, and the builder about to import; the interleaving of
+the former withdrawn-marker race (request 1 polls while request 0 is writing the marker's temp file,
+the write fails, request 2 rebuilds): request 1 never sees a marker before the rebuild is complete -/
 example :
-    let s := run (init 2 3) ((0, .none) :: (1, .none) :: List.replicate 8 (0, .none) ++ [(1, .none), (1, .none)])
-    s.procs.map (·.pc) = [.bMarkWrite, .wLoad] ∧ obs s 1 .none = ⟨.load, .so .complete⟩ := by
+    let s := run (init 2 3) ((0, .none) :: (1, .none) :: List.replicate 11 (0, .none) ++ [(1, .none), (1, .none)])
+    s.procs.map (·.pc) = [.bRestore, .wLoad] ∧ obs s 1 .none = ⟨.load, .so .complete⟩ := by
   decide
 
-/- Full statement (FALSE for the code as it is, see the counterexample): the same with `Reach s`
-   and every continuation `sch`. -/
+example :
+    let sch := List.replicate 9 (0, Choice.none) ++ [(1, .none), (1, .none)] ++
+      [(0, .fail), (0, .none), (0, .none), (0, .none)] ++ List.replicate 6 (2, .none) ++ [(1, .none)]
+    (run (init 3 3) sch).procs.map (·.pc) = [.raised (.build .tmpWrite), .wPoll 2, .bLink2] ∧
+    (run (init 3 3) sch).fs.marker = false := by
+  decide
 
 /-- Reuse: once the marker exists no request is in (or ever enters) code generation or
 compilation, a newly arriving request finds the lock taken (`open(c,'x')` fails), and along every
-continuation, with arbitrary faults other than a failing marker write, the lock is never acquired
-and the compiler never invoked again. -/
-theorem reuse_partial {s : Sys} (h : ReachW s) (hm : s.fs.marker = true) :
+continuation, with arbitrary faults, the marker stays, the lock is never acquired and the compiler
+never invoked again. -/
+theorem reuse {s : Sys} (h : Reach s) (hm : s.fs.marker = true) :
     (∀ (i : Nat) (p : Proc), s.procs[i]? = some p → p.pc.isCompile = false) ∧
     (∀ (pid : Nat) (p : Proc), s.procs[pid]? = some p → p.pc = .idle →
         obs s pid .none = ⟨.lock, .exists_⟩) ∧
-    (∀ sch : List (Nat × Choice), NoMWFail s sch →
-        (run s sch).fs.marker = true ∧ (run s sch).nLock = s.nLock ∧
+    (∀ sch : List (Nat × Choice), (run s sch).fs.marker = true ∧ (run s sch).nLock = s.nLock ∧
         (run s sch).nCompile = s.nCompile ∧
         ∀ (i : Nat) (p : Proc), (run s sch).procs[i]? = some p → p.pc.isCompile = false) := by
-  have hi := invS_reachW h
-  have key : ∀ {s : Sys}, InvS s → s.fs.marker = true →
+  have hi := inv_reach h
+  have key : ∀ {s : Sys}, Inv s → s.fs.marker = true →
       ∀ (i : Nat) (p : Proc), s.procs[i]? = some p → p.pc.isCompile = false := by
     intro s hi hm i p hp
-    have hloc := (hi.strong i p hp).1
+    have hloc := (hi.loc i p hp).2.1
     cases hc : p.pc.isCompile with
     | false => rfl
     | true =>
@@ -152,28 +124,18 @@ theorem reuse_partial {s : Sys} (h : ReachW s) (hm : s.fs.marker = true) :
       rw [hloc this] at hm; cases hm
   refine ⟨key hi hm, ?_, ?_⟩
   · intro pid p hp hidle
-    have hl := (hi.ginv hm).2.1
+    have hl := (hi.ginv.1 hm).2.1
     rw [(step_procs_self s pid .none p hp).2.2]
     obtain ⟨pc, g, saved, polls, tok⟩ := p
     simp only at hidle; subst hidle
     by_cases ht : s.timeout = 0 <;> simp [stepProc, stepLive, Pc.terminal, hl, ht]
-  · intro sch hw
-    have hr := run_after_marker s sch hi hw hm
-    exact ⟨hr.1, hr.2.1, hr.2.2, key (invS_run hi sch hw) hr.1⟩
-
-/-- The code as it is: with the stale marker of `staleMarker` present, a newly arriving request
-acquires the lock and invokes the compiler although the marker exists. -/
-theorem reuse_counterexample :
-    Reach (run (init 3 2) staleMarker) ∧ (run (init 3 2) staleMarker).fs.marker = true ∧
-    obs (run (init 3 2) staleMarker) 1 .none = ⟨.lock, .ok⟩ ∧
-    (run (init 3 2) staleMarker).nCompile = 1 ∧
-    (run (init 3 2) (staleMarker ++ List.replicate 4 (1, .none))).nCompile = 2 ∧
-    (run (init 3 2) (staleMarker ++ List.replicate 4 (1, .none))).fs.marker = true := by
-  refine ⟨reach_run (Reach.init 3 2) _, by decide, by decide, by decide, by decide, by decide⟩
+  · intro sch
+    have hr := run_after_marker s sch hi hm
+    exact ⟨hr.1, hr.2.1, hr.2.2, key (inv_reach (reach_run h sch)) hr.1⟩
 
 /-- non-vacuity: a late request on a finished cache waits zero polls, imports, compiles nothing -/
 example :
-    let s := run (init 2 3) (List.replicate 13 (0, .none))
+    let s := run (init 2 3) (List.replicate 15 (0, .none))
     s.fs.marker = true ∧ s.nCompile = 1 ∧ obs s 1 .none = ⟨.lock, .exists_⟩ ∧
     (run s (List.replicate 4 (1, .none))).procs.map (·.pc) = [.done true .complete, .done false .complete] ∧
     (run s (List.replicate 4 (1, .none))).nCompile = 1 := by
@@ -189,7 +151,7 @@ theorem timeout_bound {s : Sys} (h : Reach s) (pid : Nat) (p : Proc) (hp : s.pro
           pc := if i + 1 = s.timeout then .raised .timeout else .wPoll (i + 1), polls := i + 1 })) ∧
     (p.pc = .raised .timeout → p.polls = s.timeout) := by
   have hi := inv_reach h
-  have hloc := (hi.loc pid p hp).2
+  have hloc := (hi.loc pid p hp).2.2.2
   constructor
   · intro i hpc
     simp only [LocPc, hpc] at hloc
@@ -218,31 +180,30 @@ example : (run (init 2 2) [(0, .none), (1, .none), (1, .none)]).procs[1]? =
 /-- Failure-free runs (a request = one call of `compile_forms` or of `compile_expressions`, same
 transition system): for every number of requests, every timeout and every failure-free schedule
 from the empty cache: the lock is acquired and the compiler invoked at most once; every request
-scheduled at least `timeout + 14` times has terminated; every terminated request has either
-returned a completely built module with its globals restored - THE SAME module for all of them:
+scheduled at least `timeout + 16` times has terminated; every terminated request has either
+returned a completely built module with its globals restored — THE SAME module for all of them:
 the first and only `.so` the linker produced (`tok = 1`, the one on disk), built by the unique
-builder - or raised `TimeoutError` after exactly `timeout` unsuccessful polls of its own (so with a
+builder — or raised `TimeoutError` after exactly `timeout` unsuccessful polls of its own (so with a
 timeout larger than the number of times it is scheduled it does not raise at all). -/
 theorem no_failure_all_succeed (n t : Nat) (sch : List (Nat × Choice))
     (hnf : ∀ x ∈ sch, x.2 = .none) :
     (run (init n t) sch).nLock ≤ 1 ∧ (run (init n t) sch).nCompile ≤ 1 ∧
     ∀ (j : Nat) (p : Proc), (run (init n t) sch).procs[j]? = some p →
-      (sched sch j ≥ t + 14 → p.pc.terminal = true) ∧
+      (sched sch j ≥ t + 16 → p.pc.terminal = true) ∧
       (p.pc.terminal = true →
         (∃ b, p.pc = .done b .complete ∧ p.g = userG ∧ p.tok = 1 ∧ (run (init n t) sch).fs.gen = 1) ∨
         (p.pc = .raised .timeout ∧ p.polls = t)) ∧
       (sched sch j < t → p.pc ≠ .raised .timeout) := by
   have hnfr := reachNF_run (ReachNF.init n t) sch hnf
   have hr := reachNF_reach hnfr
-  have hS := invS_reachW (reachNF_reachW hnfr)
-  have hi := hS.inv
+  have hi := inv_reach hr
   have hn := invNF_reach hnfr
   have hlock : (run (init n t) sch).nLock ≤ 1 := by
     have := hi.epochs; have := hn.norel
     split at * <;> omega
   refine ⟨hlock, Nat.le_trans hi.compiles hlock, ?_⟩
   intro j p hp
-  have hloc := (hi.loc j p hp).2
+  have hloc := (hi.loc j p hp).2.2.2
   have hto : (run (init n t) sch).timeout = t := by rw [run_timeout]; rfl
   refine ⟨?_, ?_, ?_⟩
   · intro hs
@@ -250,12 +211,11 @@ theorem no_failure_all_succeed (n t : Nat) (sch : List (Nat × Choice))
     exact terminal_of_sched (init n t) sch j p hnr (by simpa [init] using hs) hp
   · intro hterm
     have hcl := hn.clean j p hp
-    have hst := (hS.strong j p hp).2
     have hlow := hi.lower
     have hgl := hi.genle
     have hcm := hi.compiles
     obtain ⟨pc, g, saved, polls, tok⟩ := p
-    cases pc <;> simp_all [Pc.terminal, Pc.faulty, LocPc, StrongPc]
+    cases pc <;> simp_all [Pc.terminal, Pc.faulty, LocPc]
     case raised e => cases e <;> simp_all
     case done b so => omega
   · intro hs hpc
@@ -275,8 +235,9 @@ example :
   decide +kernel
 
 /-- Exactly one compiles (`compile_forms` and `compile_expressions` alike: same transition system):
-in every failure-free run (any number of requests, any interleaving, any timeout) in which at least one request has returned - in particular in every run in which all
-requests have finished successfully - the compiler has been invoked exactly once, the lock acquired
+in every failure-free run (any number of requests, any interleaving, any timeout) in which at least
+one request has returned — in particular in every run in which all
+requests have finished successfully — the compiler has been invoked exactly once, the lock acquired
 exactly once, the `.so` linked exactly once, and exactly one request is (or was) the builder.
 (`at_most_one_builder`/`no_failure_all_succeed` give `≤ 1`; this is the lower bound.) -/
 theorem exactly_one_builder (n t : Nat) (sch : List (Nat × Choice))
@@ -290,9 +251,9 @@ theorem exactly_one_builder (n t : Nat) (sch : List (Nat × Choice))
   have hi := inv_reach (reachNF_reach hnfr)
   have hn := invNF_reach hnfr
   obtain ⟨j, p, b, so, hp, hpc⟩ := hfin
-  have hloc := (hi.loc j p hp).2
+  have hloc := (hi.loc j p hp).2.2.2
   simp only [LocPc, hpc] at hloc
-  have hlow := hi.lower hloc.1
+  have hlow := hi.lower hloc.2.2.1
   have hlock : (run (init n t) sch).nLock ≤ 1 := by
     have := hi.epochs; have := hn.norel
     split at * <;> omega
@@ -304,8 +265,8 @@ theorem exactly_one_builder (n t : Nat) (sch : List (Nat × Choice))
 /-- non-vacuity: three requests, all finish successfully; exactly one compile, one builder -/
 example :
     let sch := (List.range 20).flatMap fun _ => [(2, Choice.none), (0, .none), (1, .none)]
-    (run (init 3 9) sch).procs.map (·.pc) = [.done false .complete, .done false .complete, .done true .complete] ∧
-    (run (init 3 9) sch).nCompile = 1 ∧ (run (init 3 9) sch).procs.countP (fun p => p.pc.isBB) = 1 := by
+    (run (init 3 14) sch).procs.map (·.pc) = [.done false .complete, .done false .complete, .done true .complete] ∧
+    (run (init 3 14) sch).nCompile = 1 ∧ (run (init 3 14) sch).procs.countP (fun p => p.pc.isBB) = 1 := by
   decide +kernel
 
 end Ffcx.Jit
